@@ -20,6 +20,13 @@ def specs_for(ctx, i, rng, cfg):
     return templates[i % len(templates)]
 
 
+def engine_post(cfg):
+    """configuration applied to every engine of a check (and to the engines of its replays): how handles are obtained"""
+    svr = cfg.get('seed_via_refs', True)
+    def post(eng): eng.seed_via_refs = svr
+    return post
+
+
 def run_histories(ctx, cfg):
     tier = ctx.tier
     n = cfg['n'][tier]
@@ -36,6 +43,8 @@ def run_histories(ctx, cfg):
         eng = hist.Engine(spec, workdir, name='h', count=counts)
         eng.stop_on_taint = cfg.get('stop_on_taint', True)
         eng.default_session_opts = cfg.get('session_opts', {})
+        post = engine_post(cfg); post(eng)
+        eng.replay_kw = {'post': post}
         ops = []
         try:
             ops = hops.random_history(eng, rng, n_ops, weights=cfg.get('weights'), invalid_rate=cfg.get('invalid_rate', 0.15),
@@ -63,7 +72,7 @@ def run_histories(ctx, cfg):
             witness = {'spec': spec, 'ops': ops, 'report': r.as_dict(), 'history_index': i}
             if len(shrunk) < cfg.get('max_shrinks', 6) and (fid or key) not in shrunk:
                 mech = r.detail.get('mechanism') if isinstance(r.detail, dict) else None
-                ekw = dict(cfg.get('engine_kw', {}), stop_on_taint=cfg.get('stop_on_taint', True))
+                ekw = dict(cfg.get('engine_kw', {}), stop_on_taint=cfg.get('stop_on_taint', True), post=post)
                 small = hops.shrink(spec, ops, key, workdir, budget=shrink_budget, mech=mech, **ekw)
                 e2 = hops.replay_ops(spec, small, workdir, **ekw)
                 rr = [x for x in e2.reports if (x.monitor, x.kind) == key and (mech is None or x.detail.get('mechanism') == mech)]
@@ -80,7 +89,8 @@ def run_histories(ctx, cfg):
 
 def replay(ctx, witness, cfg):
     workdir = ctx.tmp()
-    eng = hops.replay_ops(witness['spec'], witness['ops'], workdir, stop_on_taint=cfg.get('stop_on_taint', True))
+    post = engine_post(dict(cfg, seed_via_refs=witness['seed_via_refs']) if 'seed_via_refs' in witness else cfg)
+    eng = hops.replay_ops(witness['spec'], witness['ops'], workdir, stop_on_taint=cfg.get('stop_on_taint', True), post=post)
     monitors = set(cfg['monitors'])
     for r in eng.reports:
         if r.monitor in monitors:
